@@ -34,6 +34,30 @@ CHECKS = {
         note="Trusted: libxcrypt and the bcrypt wheel as mutual references (no third implementation). Minimum costs only. Known findings F12a/F12b "
              "(bcrypt os_crypt has no fallback) are listed in known_findings.json. Digests under *damaged* crypt answers are not judged (outside the statement).",
         design_ref="DESIGN.md section 4, C03"),
+    "C04": dict(
+        level="exploration",
+        technique="deterministic simulation: seeded login/policy-change histories on a user table against an executable PolicyModel, with the library's random source owned by the simulator (stream / range-minimum / range-maximum) and costs read by an independent field extractor",
+        text="An application around a CryptContext is simulated: a user table that evolves as logins rewrite hashes, legacy records imported "
+             "at costs below/at/inside/above the limits, policy updates, categories with partial overrides, and the process-wide random source "
+             "(salts, vary_rounds) replaced by a simulator-owned source that also hands out the extreme draws. After every operation the "
+             "answer (attribution, default scheme, cost of new hashes, needs_update, the three verify_and_update outcomes, fixed point of "
+             "repeated logins, independence of the order in which the lazily built record caches were filled) is compared with an independent "
+             "~200-line PolicyModel; costs come from an independent regular-expression field extractor, never from passlib's parsers.",
+        note="<=5 schemes from a 22-scheme cheap palette, categories admin/staff (+ an unknown one), <=40 ops, well-formed configurations only. "
+             "Exact vary_rounds ranges are not modelled (only: inside window and hard limits). Trusted: PolicyModel (refmodels/policy.py), extractor.",
+        design_ref="DESIGN.md section 4 and Appendix B, C04"),
+    "C08": dict(
+        level="exploration",
+        technique="deterministic simulation with storage-fault injection on durable records (byte substitution/loss/duplication/insertion, torn tail, misdirected record, field swap, NUL/non-ASCII, bytes for text); thorough tier enumerates the single-fault neighbourhood; independent field extractor as oracle",
+        text="Stored hashes of a generated user table (21-scheme palette, optional unix_disabled / plaintext at the end) are damaged the way "
+             "storage damages records and pushed through the login path -- identify, verify, needs_update, verify_and_update on the bare handler "
+             "and on the context, as text and bytes. identify must answer without raising; everything else answers or raises ValueError/TypeError; "
+             "if the original password still verifies, an independent extractor must decode the same cost, salt bits, digest bits and variant from "
+             "both strings (value-exact, spelling-lenient: hex case, padding bits, '=' padding, blanks/zero padding around decimals, bcrypt "
+             "2a/2b/2y). Thorough: every position x 12 substitute bytes, all deletions, duplications, insertions, truncations per record.",
+        note="Bounded: palette formats only, single faults (15% cumulative); records whose damaged cost field asks for > ~30000 rounds / bcrypt cost > 8 are "
+             "counted but not pushed through verify. The closing clause of C08 (no other spelling of the same bits accepted) is deliberately not enforced.",
+        design_ref="DESIGN.md section 4 and Appendix C, C08"),
     "C13": dict(
         level="exploration",
         technique="deterministic simulation (seeded discrete-event histories under a simulated clock) with an independent RFC 4226/6238 reference as oracle",
